@@ -233,6 +233,29 @@ Theorem C10_fork_histories : forall v fsafe l d, Inv d ->
 Proof. exact fork_histories. Qed.
 Print Assumptions C10_fork_histories.
 
+(* ---------------------------------------------------------------- the end-of-job notification raises *)
+(* `runner_n ord nf v o`: the undisturbed run with the place of report_eoj() in cleanup explicit (ord) and a
+   notification that raises (nf = true).  Notification last (the code): the run is the run of `runner`,
+   whatever nf - so every statement above holds when the notification raises; in particular              *)
+Theorem C10_notify_last_is_runner : forall nf v o d,
+  map snd (runner_n NotifyLast nf v o (boot d)) = trace v o d.
+Proof. exact notify_last_is_runner. Qed.
+Print Assumptions C10_notify_last_is_runner.
+
+Theorem C10_notify_raises_own_exit : forall nf v d o, v <> Prefix ->
+  pid (end_n NotifyLast nf v d o) = false /\ lock (end_n NotifyLast nf v d o) = false.
+Proof. exact notify_last_own_exit. Qed.
+Print Assumptions C10_notify_raises_own_exit.
+
+(* the other order refuted: notification before the removal of the pid file, and it raises *)
+Theorem C10_notify_first_refuted :
+  exists d, Inv d /\
+    pid (end_n NotifyFirst true Guarded d OOk) = true /\ done (end_n NotifyFirst true Guarded d OOk) = true /\
+    lock (end_n NotifyFirst true Guarded d OOk) = true /\
+    pid (end_n NotifyFirst true Guarded d ORaise) = true /\ failed (end_n NotifyFirst true Guarded d ORaise) = Some 1%Z.
+Proof. exact notify_first_refuted. Qed.
+Print Assumptions C10_notify_first_refuted.
+
 (* record of the defect of the pinned commit: the literal runner keeps the pid file after a success *)
 Theorem C10_pid_left_on_success_refuted :
   exists d o, Inv d /\ success o = true /\ d_pid (launch Prefix d o None) = true.
